@@ -449,8 +449,16 @@ ENCODERS = {'asl::utf32toUtf8': 4, 'asl::utf16toUtf8': 3}
 
 
 def check_outbuf(ctx, prog):
+    n = check_fixed_buffers(ctx, prog, 'C08.outbuf')
+    ctx.floor('C08.outbuf fixed buffers', n, 3)
+    check_heap_destinations(ctx, prog)
+
+
+def check_fixed_buffers(ctx, prog, rule, only_file=None):
     n = 0
     for f in prog.functions:
+        if only_file and not f['file'].endswith(only_file):
+            continue
         if not f.get('body'):
             continue
         for e in fn_exprs(f):
@@ -466,13 +474,16 @@ def check_outbuf(ctx, prog):
                 n += 1
                 ctx.analysed(f)
                 if cnt is None:
-                    ctx.undecided('C08.outbuf', f['pq'], role, where, 'unit count is not a constant for a fixed-size destination')
+                    ctx.undecided(rule, f['pq'], role, where, 'unit count is not a constant for a fixed-size destination')
                     continue
                 need = (4 if (e['fn'].endswith('utf16toUtf8') and cnt == 2) else per * cnt) + 1
                 ctx.evaluations += 1
-                ctx.check(dt['n'] >= need, 'C08.outbuf', f['pq'], role, where, '%d-byte buffer >= %d (max output of %d unit(s) + NUL)' % (dt['n'], need, cnt),
+                ctx.check(dt['n'] >= need, rule, f['pq'], role, where, '%d-byte buffer >= %d (max output of %d unit(s) + NUL)' % (dt['n'], need, cnt),
                           '`%s` has %d bytes but %s may write %d bytes for %d unit(s) (the encoder always appends a NUL): stack buffer overflow on a %d-byte code' % (pe(dest), dt['n'], e['fn'].split('::')[-1], need, cnt, per if cnt == 1 else 4))
-    ctx.floor('C08.outbuf fixed buffers', n, 3)
+    return n
+
+
+def check_heap_destinations(ctx, prog):
     # heap destinations sized 4 bytes per code
     for name, sig, factor in (('asl::String::fromCodes', None, 4), ('asl::String::fromCode', None, 4)):
         f = fn1(prog, name, sig)
